@@ -1145,7 +1145,13 @@ def check_tie(repo=None, which="Intg", timeout=600, tag=""):
     if not ok:
         return res
     gen = os.path.join(d, "Gen", gen_name)
-    res["generated_sha"] = hashlib.sha256(open(gen).read().encode()).hexdigest()[:16]
+    gtext = open(gen).read()
+    res["generated_sha"] = hashlib.sha256(gtext.encode()).hexdigest()[:16]
+    # the generated text is linted like the rest of the development (the translator emits definitions only)
+    bad = re.findall(r"\b(Axiom|Axioms|Parameter|Parameters|Conjecture|Admitted|admit|Variable|Hypothesis)\b|Unset Guard|bypass_check", re.sub(r"\(\*.*?\*\)", "", gtext, flags=re.S))
+    if bad:
+        res.update(stage="forbidden construct in the generated file", log=str(bad[:5]))
+        return res
     tie_src = os.path.join(COQ, "Tie", tie_name)
     tie = os.path.join(d, "Tie", tie_name)
     shutil.copyfile(tie_src, tie)
